@@ -38,6 +38,7 @@ SYNTAX = {
     'decorators': "@name\na: /\\w+/ ;\n\n@nomemo\n@nostak\nb: 'x' ;\n\n@isname\nc: /\\w+/ ;\n",
     'directives': ("@@grammar :: G\n@@whitespace :: /[ ]+/\n@@nameguard :: False\n@@namechars :: '-'\n@@ignorecase :: True\n@@left_recursion :: False\n"
                    "@@parseinfo :: True\n@@comments :: /\\(\\*.*?\\*\\)/\n@@eol_comments :: /#.*$/\n@@keyword :: if else 'end' \"fi\"\n@@keyword :: None True 1\n\na: 'x' ;\n"),
+    'keywords-parenthesised': "@@keyword :: (if else 'end')\n@@keyword :: ( \"fi\" )\n\na[T]: 'x' ;\n",
     'directives2': "@@whitespace :: None\n@@nameguard :: True\n\na: 'x' ;\n",
     'constants': "a: `1` `'s'` `x{y}` ```multi\nline``` ^`alert` ^^^`three` `True` ;\n",
     'meta': "a: @int @uint @float @bool @name ;\n",
